@@ -515,6 +515,13 @@ impl Scenario for Flow {
                             }
                         }
                     }
+                    if v6.is_some() {
+                        if let Some(v) = mon::check_c11_first_raw(&res, &buf, &exts, ptype, buf_len) {
+                            if ex.report(v) {
+                                stop!();
+                            }
+                        }
+                    }
                     if let Some(v) = v6 {
                         let undecodable = call == Call::EncapExt;
                         let detail = v.detail.clone();
